@@ -322,6 +322,7 @@ func (d *Decoder) readUntypedList(tag byte) (interface{}, error) {
 		}
 
 		if grow {
+			it, _ = EnsureInterface(it, nil)
 			elem := EnsureRawValue(it)
 			if !elem.IsValid() {
 				// a null element
